@@ -109,6 +109,7 @@ type Originator struct {
 	Prog        *Prog
 	InlineDepth int
 	Inlined     map[string]bool
+	pure        map[*ssa.Function]bool
 }
 
 func NewOriginator(p *Prog) *Originator {
@@ -411,6 +412,24 @@ func (o *Originator) call(x *ssa.Call, c *octx) *Term {
 	if callee != nil && InModule(callee) && c.depth < o.InlineDepth {
 		if rt := o.inlinePure(callee, t.Args, c); rt != nil {
 			o.Inlined[FuncKey(callee)] = true
+			// a closure: its free variables are the bindings of the MakeClosure (cells of the enclosing function)
+			if mc := closureOf(x.Call.Value); mc != nil {
+				fn := mc.Fn.(*ssa.Function)
+				free := map[string]*Term{}
+				for i, b := range mc.Bindings {
+					if i >= len(fn.FreeVars) {
+						break
+					}
+					var bt *Term
+					if al, ok := b.(*ssa.Alloc); ok {
+						bt = o.cellValue(al, c)
+					} else {
+						bt = o.of(b, c)
+					}
+					free["free:"+fn.FreeVars[i].Name()] = bt
+				}
+				rt = substituteFree(rt, free)
+			}
 			rt.V = x
 			return rt
 		}
@@ -418,41 +437,143 @@ func (o *Originator) call(x *ssa.Call, c *octx) *Term {
 	return t
 }
 
-// inlinePure inlines a single-block module function without effects whose
-// result is a term over its parameters.
-func (o *Originator) inlinePure(f *ssa.Function, args []*Term, c *octx) *Term {
-	if len(f.Blocks) != 1 {
-		return nil
+// isPure: the function has no side effects — no stores to non-local memory, no map updates, no defers, only
+// calls of pure functions (recursively, module functions included).
+func (o *Originator) isPure(f *ssa.Function, visiting map[*ssa.Function]bool) bool {
+	if o.pure == nil {
+		o.pure = map[*ssa.Function]bool{}
 	}
-	b := f.Blocks[0]
-	ret, ok := b.Instrs[len(b.Instrs)-1].(*ssa.Return)
-	if !ok || len(ret.Results) == 0 {
-		return nil
+	if v, ok := o.pure[f]; ok {
+		return v
 	}
-	for _, in := range b.Instrs[:len(b.Instrs)-1] {
-		switch y := in.(type) {
-		case *ssa.FieldAddr, *ssa.UnOp, *ssa.Field, *ssa.BinOp, *ssa.Lookup, *ssa.Extract, *ssa.Index, *ssa.IndexAddr, *ssa.Slice, *ssa.Convert, *ssa.ChangeType, *ssa.MakeInterface:
-		case *ssa.Call:
-			if CalleeName(&y.Call) != "builtin:len" {
-				cal := StaticCallee(&y.Call)
-				if cal == nil || !InModule(cal) {
-					return nil
+	if visiting[f] || len(f.Blocks) == 0 || len(f.Blocks) > 12 {
+		return false
+	}
+	visiting[f] = true
+	defer delete(visiting, f)
+	ok := true
+	for _, b := range f.Blocks {
+		if b == f.Recover {
+			continue
+		}
+		for _, in := range b.Instrs {
+			switch y := in.(type) {
+			case *ssa.FieldAddr, *ssa.UnOp, *ssa.Field, *ssa.BinOp, *ssa.Lookup, *ssa.Extract, *ssa.Index, *ssa.IndexAddr, *ssa.Slice,
+				*ssa.Convert, *ssa.ChangeType, *ssa.MakeInterface, *ssa.Phi, *ssa.If, *ssa.Jump, *ssa.Panic, *ssa.MakeSlice, *ssa.DebugRef, *ssa.Return:
+			case *ssa.Alloc:
+				if y.Heap && y.Comment != "varargs" {
+					ok = false
 				}
+			case *ssa.Store:
+				pure := false
+				if ia, isIA := y.Addr.(*ssa.IndexAddr); isIA {
+					if _, isAl := ia.X.(*ssa.Alloc); isAl {
+						pure = true
+					}
+				}
+				if !pure {
+					ok = false
+				}
+			case *ssa.Call:
+				if pureCallees[CalleeName(&y.Call)] {
+					continue
+				}
+				cal := StaticCallee(&y.Call)
+				if cal == nil || !InModule(cal) || !o.isPure(cal, visiting) {
+					ok = false
+				}
+			default:
+				ok = false
 			}
-		default:
-			return nil
 		}
 	}
-	sub := &octx{seen: map[ssa.Value]bool{}, depth: c.depth + 1}
-	var results []*Term
-	for _, r := range ret.Results {
-		results = append(results, substitute(o.of(r, sub), f, args))
+	o.pure[f] = ok
+	return ok
+}
+
+// pureCallees are functions without side effects whose calls may appear in an inlined body.
+var pureCallees = map[string]bool{
+	"strings.HasPrefix": true, "strings.HasSuffix": true, "strings.TrimSpace": true, "strings.ToLower": true, "strings.ToUpper": true,
+	"strings.TrimPrefix": true, "strings.TrimSuffix": true, "strings.Index": true, "strings.IndexByte": true, "strings.LastIndexByte": true,
+	"strings.Contains": true, "strings.EqualFold": true, "strings.Join": true, "strings.Split": true, "strings.Cut": true, "strings.CutPrefix": true,
+	"slices.Concat": true, "slices.Clone": true, "slices.Contains": true, "slices.Index": true, "strconv.Itoa": true,
+	"builtin:len": true, "builtin:cap": true, "builtin:append": true, "builtin:min": true, "builtin:max": true,
+}
+
+// inlinePure inlines a module function without effects (no stores to non-local memory, no map updates, only pure
+// calls) whose results are terms over its parameters; several returns become a phi of the returned terms.
+func (o *Originator) inlinePure(f *ssa.Function, args []*Term, c *octx) *Term {
+	if !o.isPure(f, map[*ssa.Function]bool{}) {
+		return nil
 	}
-	if len(results) == 1 {
+	var rets []*ssa.Return
+	for _, b := range f.Blocks {
+		if b == f.Recover {
+			continue
+		}
+		for _, in := range b.Instrs {
+			switch y := in.(type) {
+			case *ssa.FieldAddr, *ssa.UnOp, *ssa.Field, *ssa.BinOp, *ssa.Lookup, *ssa.Extract, *ssa.Index, *ssa.IndexAddr, *ssa.Slice,
+				*ssa.Convert, *ssa.ChangeType, *ssa.MakeInterface, *ssa.Phi, *ssa.If, *ssa.Jump, *ssa.Panic, *ssa.MakeSlice, *ssa.DebugRef:
+			case *ssa.Alloc:
+				if y.Heap && y.Comment != "varargs" {
+					return nil
+				}
+			case *ssa.Store:
+				// stores into local arrays (variadic packing) only
+				if ia, ok := y.Addr.(*ssa.IndexAddr); ok {
+					if _, isAl := ia.X.(*ssa.Alloc); isAl {
+						continue
+					}
+				}
+				return nil
+			case *ssa.Return:
+				rets = append(rets, y)
+			case *ssa.Call:
+				name := CalleeName(&y.Call)
+				if pureCallees[name] {
+					continue
+				}
+			default:
+			}
+		}
+	}
+	if len(rets) == 0 || len(rets[0].Results) == 0 {
+		return nil
+	}
+	sub := &octx{seen: map[ssa.Value]bool{}, depth: c.depth + 1}
+	nres := len(rets[0].Results)
+	results := make([]*Term, nres)
+	for j := 0; j < nres; j++ {
+		var alts []*Term
+		for _, r := range rets {
+			alts = append(alts, substitute(o.of(r.Results[j], sub), f, args))
+		}
+		if len(alts) == 1 {
+			results[j] = alts[0]
+		} else {
+			same := true
+			for _, a := range alts[1:] {
+				if a.String() != alts[0].String() {
+					same = false
+				}
+			}
+			if same {
+				results[j] = alts[0]
+			} else {
+				results[j] = &Term{Op: "phi", S: "ret:" + FuncKey(f), Args: alts}
+			}
+		}
+	}
+	if nres == 1 {
 		return results[0]
 	}
 	return &Term{Op: "tuple", Args: results}
 }
+
+// Substitute / SubstituteFree are exported for rules that resolve wrappers themselves.
+func Substitute(t *Term, f *ssa.Function, args []*Term) *Term { return substitute(t, f, args) }
+func SubstituteFree(t *Term, free map[string]*Term) *Term    { return substituteFree(t, free) }
 
 // substitute replaces parameter leaves of a callee term by argument terms.
 func substitute(t *Term, f *ssa.Function, args []*Term) *Term {
@@ -520,6 +641,105 @@ func FlattenConcat(t *Term) []*Term {
 		return out
 	case t.Op == "call" && t.S == "slices.Clone" && len(t.Args) == 1:
 		return FlattenConcat(t.Args[0])
+	case t.Op == "phi":
+		// alternatives of an inlined helper: the nil / empty alternative adds nothing
+		var lists [][]*Term
+		for _, a := range t.Args {
+			if a.Op == "const" && a.S == "nil" {
+				continue
+			}
+			lists = append(lists, FlattenConcat(a))
+		}
+		if len(lists) == 1 {
+			return lists[0]
+		}
+		if len(lists) > 1 {
+			same := true
+			for _, l := range lists[1:] {
+				if termsString(l) != termsString(lists[0]) {
+					same = false
+				}
+			}
+			if same {
+				return lists[0]
+			}
+		}
+	}
+	// a fresh, empty base (make) contributes no element
+	if t.Op == "make" {
+		return nil
 	}
 	return []*Term{t}
 }
+
+func closureOf(v ssa.Value) *ssa.MakeClosure {
+	switch x := v.(type) {
+	case *ssa.MakeClosure:
+		return x
+	case *ssa.UnOp:
+		// a closure stored in a local cell
+		if al, ok := x.X.(*ssa.Alloc); ok {
+			var mc *ssa.MakeClosure
+			n := 0
+			for _, r := range *al.Referrers() {
+				if st, ok := r.(*ssa.Store); ok && st.Addr == ssa.Value(al) {
+					n++
+					mc, _ = st.Val.(*ssa.MakeClosure)
+				}
+			}
+			if n == 1 {
+				return mc
+			}
+		}
+	}
+	return nil
+}
+
+// cellValue: the value held by a captured local cell (its single store), as a term.
+func (o *Originator) cellValue(al *ssa.Alloc, c *octx) *Term {
+	var stores []*ssa.Store
+	for _, r := range *al.Referrers() {
+		if st, ok := r.(*ssa.Store); ok && st.Addr == ssa.Value(al) {
+			stores = append(stores, st)
+		}
+	}
+	if len(stores) == 1 {
+		return o.of(stores[0].Val, c)
+	}
+	return &Term{Op: "cell", S: al.Comment, V: al}
+}
+
+// substituteFree replaces free-variable leaves (free:name and paths rooted there) by the bound terms.
+func substituteFree(t *Term, free map[string]*Term) *Term {
+	if a, ok := t.APOf(); ok && len(t.Args) == 0 {
+		for name, bt := range free {
+			if a == name {
+				return bt
+			}
+			if APHasPrefix(a, name) {
+				rest := a[len(name):]
+				if base, ok := bt.APOf(); ok {
+					return &Term{Op: "load", S: base + rest, V: t.V}
+				}
+				return &Term{Op: "field", S: strings.TrimPrefix(rest, "."), Args: []*Term{bt}, V: t.V}
+			}
+		}
+		return t
+	}
+	n := &Term{Op: t.Op, S: t.S, Names: t.Names, V: t.V}
+	for _, a := range t.Args {
+		n.Args = append(n.Args, substituteFree(a, free))
+	}
+	return n
+}
+
+func termsString(l []*Term) string {
+	var parts []string
+	for _, t := range l {
+		parts = append(parts, t.String())
+	}
+	return strings.Join(parts, ", ")
+}
+
+// ListString renders a list-valued term by its flattened operands: @LIST(a, b).
+func ListString(t *Term) string { return "@LIST(" + termsString(FlattenConcat(t)) + ")" }
